@@ -56,8 +56,9 @@ class Gen:
         if k < 0.86:
             return 'command "%s"' % r.choice(['true', 'false', 'true', 'false', '/nonexistent/cmd'] if self.errors else ['true', 'false'])
         if k < 0.91 and self.dates:
-            return 'date %s %d %s' % (r.choice(['<', '>']), r.choice([0, 1, 30, 59, 60, 61, 3600, 100000]),
-                                      r.choice(['seconds', 'sec', 'minutes', 'hours', 'days', 'w', 'mo', 'y']))
+            unit = r.choice(['seconds', 'sec', 'minutes', 'hours', 'days', 'w', 'mo', 'y'])
+            cap = {'s': 100000, 'm': 100000, 'h': 100000, 'd': 40000, 'w': 7000, 'y': 136}[unit[0]] if unit != 'mo' else 1600
+            return 'date %s %d %s' % (r.choice(['<', '>']), min(cap, r.choice([0, 1, 30, 59, 60, 61, 3600, 100000])), unit)
         if k < 0.96 and self.attachments and not in_att:
             return 'attachment ' + self.cond(1, in_att=True)
         return 'body ' + self.pat(r.choice(['hello', 'xyz', '^$', 'p[0-9]']))
